@@ -9,6 +9,12 @@
        from a DA double (GetIDs + batched Get through types.RetrieveWithHelpers); observed: how many of its blobs
        got a DA-included mark, and the (first id, count) of every Get call.  The blob list is written run-length
        ([rl]) and expanded here.
+       A range of the P2P header store arrives as ONE item [IStoreRange]: the headers are appended to the node's real
+       go-header store in one store.Append and the real HeaderStoreRetrieveLoop reads them in one pass; observed: how many
+       of them the sync loop took (headerCache.IsSeen before / after), and the end state.
+       Headers altered in a field outside Model/Types.header (ValidatorHash, LastCommitHash, ConsensusHash,
+       LastResultsHash, Version) differ from their original in [h_app]: the harness names h_app by the pair (AppHash,
+       those fields), the AppHash alone for the values the proposer's headers carry.
    (A, continued) the tie of transaction DATA to the signed header, in the admission cases:
        [ac_val]: the real types.Validate(header, data) and Manager.execValidate(state, header, data) on a genuine
        signed header of the aggregator's chain and data whose transaction list is a near miss of the proposer's
@@ -88,7 +94,8 @@ Record e2e_case := {
   ec_gen : genesis; ec_now : Z; ec_tb : exec_tbl; ec_app0 : root; ec_t0 : Z;
   ec_items : list item;
   ec_outs : list N;                 (* per item: 0 nothing, 1 handled-skipped, 2 admitted/stored, 3 panic;
-                                       a DA height: 10 + number of its blobs that got a DA-included mark *)
+                                       a DA height: 10 + number of its blobs that got a DA-included mark;
+                                       a header-store range: 20 + number of its headers the sync loop took (0: not appended) *)
   ec_fetch : list (list (N * N));   (* per IDAHeight item, in order: the da.Get calls (index of the first id, number of ids) *)
   ec_height : N; ec_halted : bool; ec_crashed : bool; ec_dainc : N;
   ec_applied : list header;         (* headers of the stored blocks, newest first *)
